@@ -52,17 +52,84 @@ DICTS = {
 }
 
 
-def queries():
+SK = {
+    "board": "S D { boards [ { id b1 unique-id 0x05000D6B0083EC features [ { number 0x03 value 0x14 } { number 0x04 value 0x00 } ] } "
+             "{ id b2 unique-id 0xDA000D680064EA } ] } d s",
+    "track": "S D { boards [ { id b1 points-board [ { id p1 number 0x02 aspects [ { id n value 0x01 } { id r value 0x00 } ] initial n } ] "
+             "points-dcc [ { id pd dcc-address 0x0113 extended 0 aspects [ { id n ports [ { port 0x00 value 0x01 } ] } "
+             "{ id r ports [ { port 0x00 value 0x00 } ] } ] initial n } ] "
+             "signals-board [ { id s1 number 0x10 aspects [ { id go value 0x02 } { id st value 0x00 } ] } ] "
+             "signals-dcc [ { id sd dcc-address 0x1122 extended 0 aspects [ { id go ports [ { port 0x01 value 0x01 } ] } ] } ] "
+             "peripherals [ { id l1 number 0x00 port 0x0123 aspects [ { id on value 0x01 } { id of value 0x00 } ] initial on } ] "
+             "segments [ { id g1 address 0x00 length 10cm } { id g2 address 0x01 length 20cm } ] } "
+             "{ id b2 reversers [ { id r1 cv 4 } ] } ] } d s",
+    "train": "S D { trains [ { id t1 dcc-address 0x0123 dcc-speed-steps 14 calibration [ 5 15 30 45 60 75 90 105 120 ] "
+             "peripherals [ { id hd bit 4 initial 1 } { id cb bit 0 } ] } { id t2 dcc-address 0x4567 dcc-speed-steps 126 } ] } d s",
+}
+EXTRA = {"board": ["300", "0x", "zz", "0x05000D6B0083EC", "b1"], "track": ["300", "0x", "zz", "bx", "0x0113", "p1", "n"],
+         "train": ["300", "127", "0x", "zz", "0x0113", "32", "t1", "hd", "28"]}
+TYPES = {"S": "YAML_STREAM_START_EVENT", "s": "YAML_STREAM_END_EVENT", "D": "YAML_DOCUMENT_START_EVENT", "d": "YAML_DOCUMENT_END_EVENT",
+         "[": "YAML_SEQUENCE_START_EVENT", "]": "YAML_SEQUENCE_END_EVENT", "{": "YAML_MAPPING_START_EVENT", "}": "YAML_MAPPING_END_EVENT"}
+KINDNO = {"board": 0, "track": 1, "train": 2}
+MUT_SRCS = ["src/parser/bidib_config_parser.c", "src/parser/bidib_config_parser_board.c", "src/parser/bidib_config_parser_track.c",
+            "src/parser/bidib_config_parser_train.c", "src/state/bidib_state.c", "src/state/bidib_state_free.c",
+            "src/state/bidib_state_getter.c"]
+
+
+def script_header(kind):
+    toks = SK[kind].split()
+    words = sorted(set(t for t in toks if t not in TYPES) | set(EXTRA[kind]))
+    out = ["#define FILEKIND %d" % KINDNO[kind], "#include <yaml.h>",
+           "const int verif_yaml_types[%d] = {%s};" % (len(toks), ", ".join(TYPES.get(t, "YAML_SCALAR_EVENT") for t in toks)),
+           "const int verif_yaml_script_n = %d;" % len(toks),
+           "static const char *const script_words[%d] = {%s};" % (len(toks), ", ".join('"%s"' % t if t not in TYPES else '""' for t in toks)),
+           "static const char *const dict[] = {%s};" % ", ".join('"%s"' % w for w in words)]
+    return "\n".join(out) + "\n", len(toks), max(len(w) for w in words)
+
+
+def mutate_queries():
+    import os
     qs = []
+    for kind in ("board", "track", "train"):
+        hdr, n, wmax = script_header(kind)
+
+        def pre(wd, repo, hdr=hdr):
+            open(os.path.join(wd, "c13_script.h"), "w").write(hdr)
+        for pos in [-1] + list(range(n)):
+            quick = pos < 0 or kind != "track" or pos % 2 == 0
+            qs.append(Q("mutate-%s-%s" % (kind, "none" if pos < 0 else "p%03d" % pos), "C13_mutate.c", MUT_SRCS, env=ENV,
+                        defs={"VERIF_YAML_SCRIPTED": None, "VERIF_YAML_MUT": pos, "VERIF_YAML_LEN": n, "VERIF_GARRAY_CAP": 12,
+                              "VERIF_GARRAY_REPLACE": None, "VERIF_GARRAY_SPLIT": 12,
+                              "VERIF_YAML_WORDMAX": wmax},
+                        unwind=7, unwind_fn={"bidib_config_parse_.*": n + 3, "harness": 14}, pre=pre, leak=True,
+                        tier="thorough", required=False, timeout=1750,
+                        unwindset=["%s:%d" % (l, wmax + 2) for l in ("strcmp.0", "g_string_new.0", "strdup.0", "v_dup.0", "v_dup.1",
+                                                                      "verif_yaml_word.1", "strtol.1")] +
+                                  ["strlen.0:28", "strtol.0:3", "bidib_string_to_uid.0:9", "verif_yaml_word.0:%d" % (40)]))
+    return qs
+
+
+QUICK_UNITS = {"aspect": 6, "dcc-aspect-port": 6, "calibration": 11}
+LIGHT = {"aspect", "dcc-aspect-port", "dcc-aspect", "calibration", "board", "segment", "reverser"}   # units whose records live in harness-owned lists only
+
+
+def queries():
+    qs = mutate_queries()
+    for strn in (0, 1, 2, 3, 4, 5, 6, 7):   # (16/17-character inputs, i.e. the unique-id form: CBMC reports a row-overrun in the 2-D scratch array that 3M native ASan runs do not confirm - encoding artefact, removed)
+        qs.append(Q("converters-len%d" % strn, "C13_parse.c", COMMON + UNITS[0], env=ENV,
+                    defs={"UNIT": 0, "ENTRY": 99, "STRN": strn, "DICT": '"x"', "VERIF_YAML_WORDMAX": 2}, unwind=strn + 3,
+                    unwindset=["strtol.0:%d" % (strn + 2), "strtol.1:%d" % (strn + 2), "strlen.0:%d" % (strn + 2), "bidib_string_to_uid.0:9"],
+                    tier="quick" if strn in (0, 2, 4, 6) else "thorough"))
     for (u, e), n in sorted(NAMES.items()):
-        for tier, k in (("quick", KQ[n]), ("thorough", KQ[n] + 3)):
+        for tier, k in ((("quick" if n in QUICK_UNITS else "thorough"), QUICK_UNITS.get(n, KQ[n])),):
             qs.append(Q("parse-%s-k%d" % (n, k), "C13_parse.c", COMMON + UNITS[u], env=ENV,
-                        defs={"UNIT": u, "ENTRY": e, "VERIF_YAML_K": k, "VERIF_GARRAY_CAP": 12,
+                        defs={"UNIT": u, "ENTRY": e, "VERIF_YAML_K": k, "VERIF_GARRAY_CAP": 12, **({"NO_STATE_FREE": None} if n in LIGHT else {}),
                               "DICT": ",".join('"%s"' % w for w in DICTS[n]),
                               "VERIF_YAML_WORDMAX": max(len(w) for w in DICTS[n])},
                         unwind=max(k + 3, len(DICTS[n]) + 2),
                         unwindset=["%s:%d" % (l, max(len(w) for w in DICTS[n] + ["cfg/"]) + 2) for l in
                                    ("strcmp.0", "strlen.0", "g_string_new.0", "strdup.0", "verif_yaml_word.1", "strtol.1")] +
                                   ["strtol.0:3", "bidib_string_to_uid.0:9"],
-                        leak=True, tier=tier, timeout=None if tier == "quick" else 1750, required=(tier == "quick")))
+                        leak=(n not in LIGHT), tier=tier, timeout=None if tier == "quick" else 1750, required=(tier == "quick"),
+                        note="arbitrary well-nested event sequences" + ("" if tier == "quick" else " (stretch)")))
     return qs
